@@ -94,11 +94,11 @@ PROPS = {
         'Seeded search over histories of appendFilter / removeFilter (also from inside a filter), listener changes and dispatches - direct, and performed by EventQueue::process - with by-value and by-reference prototype parameters, arguments as lvalues and temporaries. Every filter call is checked when it happens: it must be the next filter in order of addition that is still attached, see the arguments as modified by the earlier filters, and no filter or listener may run after a filter returned false; listeners must see the modified values. Variants: MixinFilter alone, between two recording mixins, on EventQueue, MixinHeterFilter on HeterEventDispatcher; canContinueInvoking reading a flag in a by-reference argument (CallbackList and EventDispatcher); conditionalFunctor and argumentAdapter (value and shared_ptr flavours).',
         'Trusted: the filter model. With lvalue arguments a heterogeneous dispatcher forwards references to the caller\'s own objects, so that variant dispatches temporaries only.',
         'Each evaluation is one seeded history of 8-38 operations on one of six configurations. Non-trivial = contains a dispatch; distinct = distinct plan hashes.'),
-    'C14': seq_prop('seq_heter', [st('c14', 'seq_heter', 'c14', 300000, 6000000)],
+    'C14': seq_prop('seq_heter', [st('c14-g++', 'seq_heter', 'c14', 300000, 6000000), st('c14-clang++', 'seq_heter_clang', 'c14', 300000, 6000000)],
         'seeded histories over HeterCallbackList / HeterEventDispatcher / HeterEventQueue with five prototypes whose argument types differ in size and triviality (ledger-tracked), recycled queue slots, and every predicate prototype; per-prototype list models and a FIFO queue model; ledger turns a slot read as the wrong type into a deterministic error',
         'Seeded search over histories that mix nine callback shapes (callable with exactly one prototype, with several, variadic), eight argument shapes (exact, convertible to one or several prototypes) and seven predicate shapes. The expected prototype of every shape is tabulated by hand ("first listed prototype it can be called with"). Checked: which callbacks run, in which order, with which (converted) argument values; queue FIFO across prototypes for process/processOne; processIf asks its predicate about exactly the queued events of its prototype and leaves every other event untouched and in place; payload integrity (pattern-filled 180-byte payload, tracked small payload, strings).',
         'Trusted: the hand-made prototype tables. For a predicate callable with several prototypes the oracle requires only exactly-once consumption with intact arguments (the statement leaves the rest open; a declining predicate legitimately lets later events overtake earlier ones). Harness types have explicit constructors so that no accidental conversion changes prototype selection.',
-        'Each evaluation is one seeded history of 10-45 operations on one of the three heterogeneous classes (default and SingleThreading policies). Non-trivial = contains an invocation / dispatch / processing call; distinct = distinct plan hashes.'),
+        'Each evaluation is one seeded history of 10-45 operations on one of the three heterogeneous classes (default and SingleThreading policies; one variant uses ArgumentPassingIncludeEvent with a std::string event supplied as lvalue, temporary and moved local), executed by a g++ build and a clang++ build (their evaluation order and implicit-move rules differ). Non-trivial = contains an invocation / dispatch / processing call; distinct = distinct plan hashes.'),
     'C15': seq_prop('seq_remover', [st('c15', 'seq_remover', 'c15', 300000, 6000000)],
         'seeded ScopedRemover lifecycle histories (add/remove through removers, reset, re-target, move construction, move assignment into empty and non-empty removers, swap, destruction in any order) against a responsibility model; attached set observed by enumeration after every step',
         'Seeded search over histories with up to 3 removers and 2 targets (CallbackList, EventDispatcher, EventQueue). The model tracks which remover is responsible for which listener; what a move assignment displaces from its destination enters a limbo set (accepted attached or detached, once seen detached it must stay so, and must be detached when the last remover involved is destroyed) - exactly the window the statement gives.',
